@@ -155,6 +155,19 @@ Theorem C01_exact_number_of_winners_cfer_batch_partial : forall A S (ZL : zlike 
 Proof. exact count_winners_cfer_any. Qed.
 Print Assumptions C01_exact_number_of_winners_cfer_batch_partial.
 
+(* ... and QPQ, under EVERY arithmetic (no hypothesis on the value class): the loop runs only while a seat is free and more candidates
+   are in the running than seats are left, a step elects or excludes exactly one candidate, a restart (which un-elects everybody)
+   keeps everybody in the running, and the closing steps elect the remaining hopefuls when they fit (Proofs/QpqSeats.v,
+   Proofs/QpqWinners.v).  With this the exact number of winners is proved for every rule except Minneapolis and the Meek family --
+   where it is false for meek and meek-prf under fixed-point arithmetic (findings K20-K23, refuted in Props/C09.v). *)
+From Droop Require Import Proofs.QpqWinners.
+Theorem C01_exact_number_of_winners_qpq : forall A cfg pr fuel s k,
+  0 <= cf_nseats cfg -> NoDup (map pc_cid (pr_cands pr)) ->
+  exec (@crashed A) fuel (count_cmd A cfg RQpq) (init_state A cfg pr) = Some (s, k) -> k <> Abort ->
+  nlen (electeds A s) = Z.min (cf_nseats cfg) (nlen (eligibles A s)).
+Proof. exact count_winners_qpq. Qed.
+Print Assumptions C01_exact_number_of_winners_qpq.
+
 (* NO WITHDRAWN CANDIDATE IS CREDITED WITH A VOTE (third clause), at the end of every count that ends without a crash:
    the Gregory family (part of the whole-run invariant of C02/C06) and meek / warren (candidates that are neither hopeful
    nor elected hold nothing). *)
